@@ -21,6 +21,16 @@ Two further families of inputs (added after changes that the narrower workload m
   * result files under other legal names: '.gz' inside the file name but not at its end, '.gz' in a directory name,
     other extensions, other letter case, blanks / non-ascii letters -- run fresh and restored, and ``from_file``.
     Whether the file on disk is compressed is found out from its first two bytes, never from its name.
+
+And two more (same reason):
+  * containers below the top level: params / cells of the shapes components really report (a sequence of sequences, a dict
+    of sequences, a sequence of dicts holding sequences).  Only TOP-LEVEL sequences are normalised to tuples, so a list
+    below the top level must be read back as a list ([1, 2] != (1, 2)); a tuple below the top level may come back as
+    either (the statement is silent about it);
+  * result files that exist before the run in a state other than "written by a stage-1 run whose components failed": a
+    file without any complete record (0 bytes, a compressed stream of 0 bytes, the beginning of a first record) and a
+    file holding the first k complete records of a log of the same experiment.  The Result of the run, the Result without
+    a file and ``Result.from_file`` must be identical for these too.
 """
 import os, re, math, json, shutil, tempfile, traceback
 from itertools import product
@@ -30,7 +40,8 @@ LEVEL = "exploration"
 RULE  = ("seeded experiments (1-3 environments x 1-2 learners x 1-2 evaluators, cross product or explicit triple list) whose "
          "evaluators yield generated rows and whose components report generated params; every case is run with no file, a plain "
          "file, a .gz file, a file under a generated other name ('.gz' inside the name / in a directory name / other extension or case) and as a "
-         "two-stage restored run on each of these files; one oracle evaluation group = one triple's row "
+         "two-stage restored run on each of these files, and on each of these files after it was put into a generated state before the run "
+         "(0 bytes / compressed stream of 0 bytes / beginning of a first record / first k complete records of a log of the same experiment); one oracle evaluation group = one triple's row "
          "list (or one params table); distinct & non-trivial = distinct row-shape signature (row-count class, ragged / late / "
          "absent-in-first-row keys, non-string keys, special column names, set of top-level cell kinds, nesting, columns mixing "
          "sequence and non-sequence cells) on a triple with at least one non-empty row")
@@ -44,14 +55,19 @@ REQUIRED = ["oracle.interactions.triples", "oracle.interactions.rows", "oracle.i
             "cells.reward-object", "cells.nested", "cells.unicode-or-newline-str", "shape.seq-column-with-absent-cell",
             "cells.plain-dict-keyed-by-registered-name", "shape.sole-field-named-like-registered-class",
             "oracle.identical.altpath-run", "oracle.identical.altpath-from_file", "oracle.identical.restored-altpath",
-            "paths.gz-inside-name", "paths.gz-in-directory-name", "paths.gz-suffix", "paths.no-gz"]
+            "paths.gz-inside-name", "paths.gz-in-directory-name", "paths.gz-suffix", "paths.no-gz",
+            "cells.nested-list.params", "cells.nested-list.rows",
+            "oracle.identical.existing-file.empty", "oracle.identical.existing-file.empty-compressed-stream",
+            "oracle.identical.existing-file.partial-first-record", "oracle.identical.existing-file.record-prefix",
+            "existing.record-prefix-left-work-pending"]
 ASSUMPTIONS = [
     "field names never collide after str() nor as python dict keys; params are named by str, int or non-integral float (typed Mapping[str,Any]); row fields also by bool, None or tuples, all expected back as str(name)",
     "the id column names (environment_id, learner_id, evaluator_id, index), 'eval_type' and the learner family 'vw' are not generated as field names/values",
     "plain dicts keyed by a registered class name (L1, HR, BR, DR, zip) ARE generated as data and are expected back as the dicts they are (the statement lists no normalisation that turns data into objects)",
     "result file paths are absolute, inside a fresh temporary directory; whether a written file is gzip-compressed is read from its magic bytes",
     "reward objects are compared by type and by behaviour on probe actions (HammingReward has no __eq__); their own parameters are finite",
-    "a column named 'rewards' may read top-level sequences back as list or tuple (coba's explicit exception); nested sequences are compared ignoring list/tuple",
+    "a column named 'rewards' may read top-level sequences back as list or tuple (coba's explicit exception); below the top level a produced list must be read back as a list, a produced tuple as list or tuple",
+    "a result file that exists before the run holds either no complete record at all or complete records that a run of the same experiment (same seed) wrote; such a run must give the Result of a run without a file",
     "the env_type / family / eval_type columns that coba's Safe* wrappers add are accepted and only compared across the Results",
     "a triple whose evaluator yields only rows without any field is not asserted (a row count cannot be represented); Missing is read as None",
     "environment/learner/evaluator ids are the order of first appearance in the triple list",
@@ -206,7 +222,7 @@ def gen_field_names(rng, n, extra_reserved=(), rows=False):
         used.add(str(bk)); usedk.append(bk); names.append(k)
     return names
 
-COLKINDS = ["scalar", "scalar", "float", "str", "seq", "seq", "dict", "any", "any", "reward", "seq-or-scalar", "nested-seq"]
+COLKINDS = ["scalar", "scalar", "float", "str", "seq", "seq", "dict", "any", "any", "reward", "seq-or-scalar", "nested-seq", "config"]
 def gen_cell(rng, ck):
     if ck == "scalar": return gen_scalar(rng)
     if ck == "float":  return gen_float(rng)
@@ -216,6 +232,7 @@ def gen_cell(rng, ck):
     if ck == "nested-seq":
         return {rng.choice("LT"): [{rng.choice("LT"): [gen_scalar(rng) for _ in range(rng.choice([0, 1, 2]))]} for _ in range(rng.choice([1, 2, 3]))]}
     if ck == "dict": return gen_dict(rng, 0)
+    if ck == "config": return gen_config_value(rng)
     if ck == "reward": return gen_reward(rng)
     if ck == "seq-or-scalar": return gen_cell(rng, "seq") if rng.random() < .5 else gen_scalar(rng)
     return gen_value(rng, 0)
@@ -246,11 +263,23 @@ def gen_rows(rng):
         rows.append(items)
     return rows
 
+def gen_config_value(rng):
+    """values of the shapes that real components report as params (layer lists, grids, option dicts): containers that
+    hold containers -- a sequence of sequences, a dict whose values are sequences, a sequence of dicts holding sequences"""
+    def leafs(): return [rng.choice([0, 1, 2, 16, 0.1, 0.01, 0.5, "relu", "id", "a", None, True]) for _ in range(rng.choice([0, 1, 2, 3]))]
+    def seq(items): return {rng.choice("LLT"): items}
+    r = rng.random()
+    if r < .35: return seq([seq(leafs()) for _ in range(rng.choice([1, 2, 3]))])
+    if r < .60: return {"D": [[k, seq(leafs())] for k in rng.sample(["lr", "w", "k", "é", 1], rng.choice([1, 2]))]}
+    if r < .80: return seq([{"D": [[rng.choice(["w", "k", 2]), seq(leafs())]]} for _ in range(rng.choice([1, 2]))])
+    if r < .90: return {"D": [["deep", {"D": [["k", seq([seq(leafs())])]]}], ["lr", seq(leafs())]]}
+    return seq([seq([seq(leafs())]), rng.choice([0, "a", None])])
+
 def gen_params(rng, extra_reserved=(), allow=("family",)):
     n = rng.choice([0, 1, 1, 2, 2, 3, 4])
     names = gen_field_names(rng, n, extra_reserved)
     if rng.random() < .04: names = [rng.choice(TAG_NAMES)]
-    items = [[k, gen_value(rng, 0, allow_reward=rng.random() < .3)] for k in names]
+    items = [[k, gen_config_value(rng) if rng.random() < .12 else gen_value(rng, 0, allow_reward=rng.random() < .3)] for k in names]
     for special in allow:
         if rng.random() < .15: items.append([special, rng.choice(["mine", "é\n", 3, 1.5, None])])
     return items
@@ -280,6 +309,13 @@ def path_class(alt):
     if not flags and ".gz" in (d + "/" + n).lower(): flags.append("gz-in-other-letter-case")
     return "+".join(flags) or "no-gz"
 
+# what the result file holds when the run starts (besides "no such file" and "what a stage-1 run with failing components
+# wrote", which every case runs): a file that exists but holds no complete record -- nothing at all, a compressed stream
+# of nothing, the beginning of a first record -- or the first k complete records of a log of this very experiment
+EXISTING = ["empty", "empty", "empty-compressed-stream", "partial-first-record", "record-prefix", "record-prefix"]
+def gen_existing(rng):
+    return {"state": rng.choice(EXISTING), "frac": round(rng.random(), 3), "keep": rng.choice([1, 2, 5, 9])}
+
 def gen_case(rng):
     ne, nl, nv = rng.choice([1, 1, 2, 2, 3]), rng.choice([1, 1, 2]), rng.choice([1, 1, 1, 2])
     cross = list(product(range(ne), range(nl), range(nv)))
@@ -304,7 +340,8 @@ def gen_case(rng):
     if not (fail["triples"] or fail["env"] or fail["lrn"]): fail["triples"] = [rng.choice(triples)]
     return {"form": form, "triples": triples, "envs": envs, "lrns": lrns, "vals": vals, "fail": fail,
             "description": rng.choice([None, "d", "é\n\"x\"", "two words"]), "seed": rng.choice([1, 1, None, 7]),
-            "altpath": gen_altpath(rng)}
+            "altpath": gen_altpath(rng),
+            "existing": {kind: gen_existing(rng) for kind in ("plain", "gz", "altpath")}}
 
 # ====================================================================================================================
 # recording components (built fresh from the spec for every run)
@@ -440,6 +477,12 @@ def norm_match(o, g, depth=0, col=None, cnt=None):
                 return ("value-changed/kind=seq", f"{o!r} read back as {_safe_repr(g)}")
         elif not isinstance(g, (list, tuple)):
             return ("value-changed/kind=nested-seq", f"{o!r} read back as {_safe_repr(g)}")
+        elif isinstance(o, list):
+            # only TOP-LEVEL sequences are normalised (to tuples): a list below the top level is plain data and
+            # [1, 2] != (1, 2).  (A tuple below the top level may come back as list or tuple: the statement is silent.)
+            c("cells.nested-list.params" if col is None else "cells.nested-list.rows")
+            if type(g) is not list:
+                return ("nested-list/read-back-as-tuple", f"the list {o!r} below the top level read back as {_safe_repr(g)}")
         if len(g) != len(o): return ("value-changed/kind=seq-length", f"{o!r} read back as {_safe_repr(g)}")
         for a, b in zip(o, g):
             r = norm_match(a, b, depth + 1, col, cnt)
@@ -560,10 +603,13 @@ def _innermost_coba_frame(exc):
         if "/coba/" in fr.filename.replace("\\", "/") and "/tests/" not in fr.filename: return fr.name
     return tb[-1].name if tb else "?"
 
-def raise_signature(spec, exc):
-    """mechanism-level signature for an exception that escapes Experiment.run / Result.from_file"""
+def raise_signature(spec, exc, data_flags=True):
+    """mechanism-level signature for an exception that escapes Experiment.run / Result.from_file.  data_flags=False: the
+    same data was written and read without an exception by a run that differs in something else, so the structural
+    features of the data are not part of the mechanism"""
     fn = _innermost_coba_frame(exc)
     sig = f"raise:{type(exc).__name__}@{fn}"
+    if not data_flags: return sig
     if fn in ("packed_list2tuple", "<dictcomp>", "filter") and isinstance(exc, TypeError):
         # the first column (triples in id order, fields in str order) that starts with a sequence cell and holds a non-sequence one
         for e, l, v in sorted(map(tuple, spec["triples"])):
@@ -818,9 +864,55 @@ def check_case(spec, ctx=None):
                 d = results_identical(r, f)
                 note(f"oracle.identical.{label}-from_file" if restored else f"oracle.identical.{kind}-from_file")
                 if d: viol.append((f"identical/{sigl}-from_file-vs-run/{d[0]}/{d[1]}", f"Result.from_file({_show(subdir, fname)}) differs from the Result run returned: {d[2]}"))
+
+        # ---------------------------------------------------------------- (3) ... also when the file exists before the run
+        for kind, siglabel, subdir, fname in files:
+            pre = (spec.get("existing") or {}).get(kind)
+            fresh = os.path.join(tmp, "fresh", *(subdir.split("/") if subdir else []), fname)
+            if not pre or not os.path.exists(fresh): continue
+            folder = os.path.join(tmp, "existing", *(subdir.split("/") if subdir else []))
+            os.makedirs(folder, exist_ok=True)
+            path = os.path.join(folder, fname)
+            state, n1 = _make_existing_file(fresh, path, pre)
+            sigl = f"{siglabel}/existing-file={state}"
+            try:
+                r, sink = run(path)
+                f = Result.from_file(path)
+            except Exception as e:
+                viol.append((f"run/{sigl}/" + raise_signature(spec, e, data_flags=False), f"{kind} {fname!r} ({state} before the run): raised {type(e).__name__}: {e}")); continue
+            if state == "record-prefix":
+                note("existing.record-prefix-left-work-pending" if _count_records(path) > n1 else "existing.record-prefix-left-nothing-pending")
+            for name, text in _logged_exceptions(sink):
+                viol.append((f"run/{sigl}/logged-exception:{name}", f"{kind} {fname!r} ({state} before the run): Experiment.run logged an exception although no component failed: {text}"))
+            note(f"oracle.identical.existing-file.{state}")
+            d = results_identical(r0, r)
+            if d: viol.append((f"identical/{sigl}-run-vs-no-file/{d[0]}/{d[1]}", f"Result returned by run({_show(subdir, fname)}), a file that was {state} before the run, differs from Result without a file: {d[2]}"))
+            d = results_identical(r, f)
+            if d: viol.append((f"identical/{sigl}-from_file-vs-run/{d[0]}/{d[1]}", f"Result.from_file({_show(subdir, fname)}), a file that was {state} before the run, differs from the Result run returned: {d[2]}"))
         return viol
     finally:
         shutil.rmtree(tmp, ignore_errors=True)
+
+def _make_existing_file(fresh, path, pre):
+    """puts the result file into the state `pre` before a run.  `fresh` is the complete log that a run of the same experiment
+    wrote under the same name: it tells whether files of this name are compressed (magic bytes) and provides the records.
+    returns (state actually made, number of complete records in it)"""
+    import gzip
+    with open(fresh, "rb") as f: raw = f.read()
+    compressed = raw[:2] == b"\x1f\x8b"
+    lines = [ln for ln in (gzip.decompress(raw) if compressed else raw).split(b"\n") if ln.strip()]
+    state = pre["state"]
+    if state == "empty-compressed-stream" and not compressed: state = "empty"
+    if state in ("partial-first-record", "record-prefix") and not lines: state = "empty"
+    if state == "empty":                     data, text, n = b"", None, 0
+    elif state == "empty-compressed-stream": data, text, n = None, b"", 0
+    elif state == "partial-first-record":    data, text, n = None, lines[0][:max(1, min(len(lines[0]) - 1, pre["keep"]))], 0
+    else:
+        n = min(len(lines), 1 + int(pre["frac"] * len(lines)))
+        data, text = None, b"".join(ln + b"\n" for ln in lines[:n])
+    if data is None: data = gzip.compress(text) if compressed else text
+    with open(path, "wb") as f: f.write(data)
+    return state, n
 
 def _show(subdir, fname):
     return repr(f"{subdir}/{fname}" if subdir else fname)
